@@ -443,6 +443,40 @@ theorem retry_keeps_executed (mt : Dep → Bool) (s : Store) (ds : List Dep) (j 
 theorem retryV2_request (listening src dst height res : Nat) :
     PRequest src dst height res (retryV2 listening src dst height res) := ⟨rfl, rfl, rfl, rfl, rfl⟩
 
+/-- `PropStatus` classifies the database's answer: `missing` without error exactly when the key is absent
+    (ErrNotFound); a closed, read-only, released or corrupted database — any other error — is an error -/
+theorem propStatus_P (r : Except DbErr Status) : PPropStatus r (propStatus r) := by
+  rcases r with e | v
+  · cases e <;> simp [PPropStatus, propStatus]
+  · simp [PPropStatus, propStatus]
+
+theorem propStatus_missing_iff (e : DbErr) : propStatus (.error e) = some .missing ↔ e = .notFound := by
+  cases e <;> simp [propStatus]
+
+/-- a status store that cannot be read at all (e.g. the database was shut down between execution and retry):
+    every matching deposit is withheld — a retry re-emits nothing, whatever is recorded -/
+theorem closed_store_emits_nothing (mt : Dep → Bool) (m : List (Nat × Status)) (ds : List Dep) (k : Nat)
+    (hk : ds.length ≤ k) : (filterBy mt ⟨m, List.replicate k true⟩ ds).1 = [] := by
+  induction ds generalizing k with
+  | nil => simp [filterBy]
+  | cons d r ih =>
+    cases k with
+    | zero => simp at hk
+    | succ k =>
+      by_cases hm : mt d = true
+      · have : isExecuted ⟨m, List.replicate (k + 1) true⟩ d.key = (none, ⟨m, List.replicate k true⟩) := by
+          simp [isExecuted, List.replicate_succ]
+        simp only [filterBy, hm, if_true, this]
+        exact ih k (by simpa using hk)
+      · have hm' : mt d = false := by simpa using hm
+        simp only [filterBy, hm', Bool.false_eq_true, if_false]
+        exact ih (k + 1) (by simp at hk; omega)
+
+/-- … and the BTC executor selects nothing from a non-empty delivery (Execute returns the error) -/
+theorem closed_store_selects_nothing (m : List (Nat × Status)) (n : Nat) (r : List Nat) (k : Nat) :
+    (forExec ⟨m, List.replicate (k + 1) true⟩ (n :: r)).1 = none := by
+  simp [forExec, List.replicate_succ]
+
 /-- **C17 (b).** A deposit whose status cannot be read, or whose stuck-pending record cannot be rewritten, is
     withheld: `isExecuted` answers "re-emit" only if the read succeeded, the record is not `executed`, and — for a
     pending record — the write of `failed` succeeded. -/
@@ -480,6 +514,33 @@ theorem executed_final (st : HState) (ops : List HOp) (hi : Inv st) (hs : seqRun
     simp only [seqRun, Bool.and_eq_true] at hs
     obtain ⟨hinv, hex⟩ := hstep_inv st op hi hs.1
     exact ih _ hinv hs.2 (hex k hk)
+
+/-- a delivery selects only proposals whose record is missing or failed at that moment — never one that is in
+    flight (pending) or executed (the per-step form the driver evaluates on the implementation's trace) -/
+theorem deliver_selects_only_executable (st : HState) (ks : List Nat) (f : List Bool) (ps : List Nat)
+    (h : (hstep true st (.deliver ks f)).1 = .selected (some ps)) :
+    ∀ k ∈ ps, lookup st.m k = .missing ∨ lookup st.m k = .failed := by
+  by_cases hh : st.held = true
+  · simp [hstep, hh] at h
+  · have hspec := C03.forExec_spec ⟨st.m, f⟩ ks
+    simp only [hstep, hh, Bool.false_eq_true, if_false] at h
+    rcases hfe : forExec ⟨st.m, f⟩ ks with ⟨o, s'⟩
+    rw [hfe] at h hspec
+    cases o with
+    | none => simp at h
+    | some qs =>
+      simp only [HRes.selected.injEq, Option.some.injEq] at h
+      subst h
+      have hnf : faulted ⟨st.m, f⟩ ks = false := by
+        cases hf : faulted ⟨st.m, f⟩ ks
+        · rfl
+        · have := hspec.1 hf; cases this
+      have := (hspec.2 hnf).1
+      simp only [Option.some.injEq] at this
+      subst this
+      intro k hk
+      have := ((C03.mem_executable st.m ks k).1 hk).2
+      cases hl : lookup st.m k <;> simp [hl, canExec] at this ⊢
 
 /-- … and at every intermediate state (the form the driver evaluates on the implementation's trace) -/
 theorem executed_final_along (st : HState) (ops : List HOp) (hi : Inv st) (hs : seqRun true st ops = true) (k : Nat) :
